@@ -340,6 +340,27 @@ func (w *c18world) variants(doc *jmut.Node, rngPick func(n int) int, full bool) 
 		d.Set("$tags", jmut.Ar(jmut.S(t)))
 		emit("tag", "$tags=["+t+"]", d)
 	}
+	// an addon together with each tag it offers for any document type: the tag is
+	// only defined for this document when the addon offers it for this type
+	for _, a := range addons {
+		ad := w.all.Addons[a]
+		if ad == nil {
+			continue
+		}
+		seen := map[string]bool{}
+		for _, ts := range ad.Tags {
+			for _, t := range ts.List {
+				if seen[t.Key] {
+					continue
+				}
+				seen[t.Key] = true
+				d := doc.Clone()
+				d.Set("$addons", jmut.Ar(jmut.S(a)))
+				d.Set("$tags", jmut.Ar(jmut.S(t.Key)))
+				emit("addon+tag", "$addons=["+a+"] $tags=["+t.Key+"]", d)
+			}
+		}
+	}
 	// positions inside the document
 	doc.Walk(func(p jmut.Path, n *jmut.Node) {
 		if len(p) == 0 {
